@@ -221,8 +221,9 @@ def verify_events(rec, evs, otimes, start, nd, prior, case, i):
                 rec.violation(f"C02:lifecycle:{b}:{leak}", f"step {step}: '{b}' is not empty at the start of the step "
                               f"(public_empty={snap['public_empty'][b]!r}, prior={prior})", case, i)
         rec.count("lifecycle_checks")
-        if snap["scene_empty"] is not True:
-            rec.violation(f"C02:lifecycle:scene:{leak}", f"step {step}: scene not empty at step start ({snap['scene_empty']!r})", case, i)
+        if snap["scene_empty"] is not True or snap.get("scene_empty_deep") is not True:
+            rec.violation(f"C02:lifecycle:scene:{leak}", f"step {step}: scene not empty at step start "
+                          f"(root empty={snap['scene_empty']!r}, whole tree empty={snap.get('scene_empty_deep')!r})", case, i)
         pix = snap["pixel"]
         rec.count("lifecycle_checks")
         if pix is None:
@@ -237,7 +238,7 @@ def verify_events(rec, evs, otimes, start, nd, prior, case, i):
             if prev_pixel is None or not np.array_equal(pix, prev_pixel):
                 rec.violation("C02:lifecycle:pixel:nondestructive-content-lost",
                               f"step {step}: pixel at step start differs from the previous step's final content", case, i)
-        if lasts[step]["buckets"].get("scene_empty") is False:
+        if lasts[step]["buckets"].get("scene_empty_deep") is False:
             rec.count("steps_ending_with_sources_in_scene")
         prev_pixel = lasts[step]["buckets"]["pixel"]
         prev_t = t
